@@ -382,10 +382,12 @@ def plan_traverse(schema, rm, mi, desc, lines, meta, res, cap=4, seeds=(0x10,), 
             for k, cs in enumerate(strings):
                 exp = ex.trace(placed, inst, cs)
                 for style in "01234":
+                  # named accessors with every iteration style; by-tag accessors (same expected trace) with two of them
+                  for tmode in (("curw", "curwt") if style in "04" else ("curw",)):
                     cid = "t%d" % len(meta)
-                    lines.append("D %s %d curw %s %d c %s %s" % (cid, mi, img.hex() if img else "-", exp.count("\n"), cs, style))
+                    lines.append("D %s %d %s %s %d c %s %s" % (cid, mi, tmode, img.hex() if img else "-", exp.count("\n"), cs, style))
                     lines.append(exp.rstrip("\n"))
-                    meta[cid] = {"message": rm.name, "desc": desc, "mode": "traverse", "shape": values.shape_str(shape),
+                    meta[cid] = {"message": rm.name, "desc": desc, "mode": "traverse" + ("-by-tag" if tmode == "curwt" else ""), "shape": values.shape_str(shape),
                                  "wrappers": cs, "iteration_style": style, "image": img.hex()}
                     res.counters["calls"] = res.counters.get("calls", 0) + exp.count("^")
             res.distinct.add((desc, values.shape_str(shape)))
